@@ -31,6 +31,7 @@ func genC19(r *core.Rand, env *core.Env, run int) *Scenario {
 	sc := &Scenario{Kind: "C19"}
 	sc.Knobs = Knobs{ShardNum: pick(r, []int{1, 2, 8}), Databases: 1, YieldRMW: r.Bool(0.6), MaxSteps: 8000, IdleBudget: 5,
 		Strategy: pick(r, []int{0, 0, 1, 2, 3}), PreemptPct: pick(r, []int{20, 50})}
+	sc.Knobs.WriterPref = r.Bool(0.3)
 	chans := []string{"ch0", "ch1", "ch2"}[:1+r.Intn(3)]
 	ns := 1 + r.Intn(4)
 	np := 1 + r.Intn(3)
